@@ -644,6 +644,8 @@ impl Circuit
         c_state: &mut ndarray::Array1<u64>, ops: &[CircuitOp], rng: &mut R)
         -> crate::error::Result<()>
     {
+        #[cfg(feature = "verif")]
+        let mut verif_op_index = 0;
         for op in ops
         {
             match *op
@@ -756,9 +758,26 @@ impl Circuit
                     /* Nothing to be done */
                 }
             }
+            #[cfg(feature = "verif")]
+            {
+                crate::verif::trace_push(verif_op_index, q_state, c_state);
+                verif_op_index += 1;
+            }
         }
 
         Ok(())
+    }
+
+    /// Verification hook: copy of the internal quantum state, if any
+    #[cfg(feature = "verif")]
+    pub fn verif_snapshot(&self) -> Option<crate::verif::Snapshot>
+    {
+        match self.q_state
+        {
+            Some(QuStateRepr::Stabilizer(ref state)) => Some(state.verif_snapshot()),
+            Some(QuStateRepr::Vector(ref state)) => Some(state.verif_snapshot()),
+            None => None
+        }
     }
 
     /// Create a histogram of measurements.
